@@ -79,7 +79,7 @@ def run(run):
     cr = core.impl_only(run, [f"cell_to_boundary {c} 1 4" for c in coarse])
     rings = [geo.parse_ring(a) for a in cr if geo.parse_ring(a)]
     pts = []
-    n = 220 if quick else 12000
+    n = run.n(220, 12000)
     for _ in range(n):
         r = rng.randint(0, 29)
         if rng.random() < 0.6:
@@ -159,6 +159,12 @@ def run(run):
                     run.violation(f"two different cells of resolution {r} contain the point strictly: {inside[0]:#x} and {inside[1]:#x} ({kind})", q, str(lst[:4]))
                 else:
                     out = [x for x in rc if x[0] in inside and not x[1]]
+                    # the planar test projects the point relative to the CELL's face; that chart covers the face and the mirrored
+                    # triangles beyond its edges, not the far side of a neighbouring face: a positive answer for a cell that is
+                    # further away than min(1 cell size, 0.15 rad) is outside the property (coarse resolutions only)
+                    reach = min(1.0, 0.15 / cell_size(r))
+                    if not out or all(x[2] > reach for x in out):
+                        continue
                     run.violation(f"two different cells of resolution {r} claim the point strictly in the containment test ({inside[0]:#x}, {inside[1]:#x}), "
                                   f"although the point lies outside the reported boundary of {out[0][0] if out else 0:#x} by {out[0][2] if out else 0:.3g} cell sizes ({kind})", q, str(lst[:4]))
             elif len(inside) == 0 and not near and decided:
@@ -177,15 +183,15 @@ def run(run):
     # edge-hugging points of cells next to seams (owners of the seam points) and of random cells
     seam_cells = sorted({c for k, cs in main['cands'].items() if pts[k][0] == "seam" for c in cs})
     rng.shuffle(seam_cells)
-    hug_cells = seam_cells[: (25 if quick else 600)] + [gen.rand_cell(rng, lo=0) for _ in range(10 if quick else 300)]
+    hug_cells = seam_cells[: run.n(25, 600)] + [gen.rand_cell(rng, lo=0) for _ in range(run.n(10, 300))]
     hp = hug_points(run, hug_cells)
     rng.shuffle(hp)
-    hp = hp[: (500 if quick else 15000)]
+    hp = hp[: run.n(500, 15000)]
     evaluate(hp, "hug")
     run.extra["edge_hugging_points"] = len(hp)
     # escalation: when implementation and model disagree, search around the disagreeing inputs (where the behaviour changed)
     if run.corr_disagreements and not run.violations:
-        focus = focus_points(run, 60 if quick else 400)
+        focus = focus_points(run, run.n(60, 400))
         fcells = set()
         for d in run.corr_disagreements:
             for side in ("impl", "model"):
@@ -196,7 +202,7 @@ def run(run):
                 fcells.add(int(d["request"].split()[1]))
         fcells = sorted(fcells)
         rng.shuffle(fcells)
-        fh = hug_points(run, fcells[: (40 if quick else 400)])
+        fh = hug_points(run, fcells[: run.n(40, 400)])
         run.note(f"correspondence disagreements: focused search on {len(focus)} points around them and {len(fh)} edge-hugging points of the cells involved")
         if focus or fh:
             evaluate(focus + fh, "focus")
